@@ -21,6 +21,9 @@ type Behavior struct {
 
 	// What the peer has and how it says so.
 	Have Bits // nil = nothing
+	// FetchMeta: ask the SUT for every piece of its metadata (ut_metadata) and compare what it
+	// serves with the torrent's info dictionary.
+	FetchMeta bool
 	// HangupAfterCorrupt: close the connection right after the last block of a piece that was
 	// served with corruption (the hash failure is then detected when the peer is already gone).
 	HangupAfterCorrupt bool
@@ -136,61 +139,62 @@ type Peer struct {
 	HS   Handshake // the SUT's handshake
 	rng  *simrt.Rand
 
-	mu              sync.Mutex
-	have            Bits
-	SutHave         Bits
-	amChoking       bool // we choke the SUT
-	amInterested    bool
-	sutChoking      bool // the SUT chokes us
-	SutInterested   bool
-	afSent          map[uint32]bool // allowed-fast we granted
-	afRecv          map[uint32]bool // allowed-fast the SUT granted us
-	reqIn           []Req           // requests from the SUT we have not answered
-	actOn           bool
-	servedBytes     map[uint32]int
-	servedBegins    map[uint32]map[uint32]bool
-	servedCorrupt   map[uint32]bool
-	sentMalformed   bool
-	hangup          bool
-	actPiece        uint32
-	reqOut          []Req       // our requests the SUT has not answered
-	reqCancelled    map[Req]int // requests we cancelled (an answer may still arrive: cancel is advisory)
-	reqChokeDropped map[Req]int // requests dropped by a choke from the SUT (non-fast)
-	served          int
-	chokeMark       *simnet.Mark // set when we sent choke: consumed-by-SUT tracking
-	lastChokeMark   *simnet.Mark // the latest choke we ever sent (kept across unchokes)
-	reqAmbig        map[Req]bool // outstanding requests that may predate the SUT's handling of that choke
-	chokePending    bool         // a choke is queued for writing, its mark not placed yet
-	everUnchoked    bool
-	sutExt          map[string]any // SUT's extension handshake
-	sutMetaID       uint8
-	sutPexID        uint8
-	haveSentToUs    map[uint32]bool
-	closed          bool
-	closeErr        error
-	wq              chan wItem
-	initMark        *simnet.Mark
-	lastAdvAt       time.Duration
-	ClosedAt        time.Duration
-	serveQ          chan struct{}
-	done            chan struct{}
-	BytesPayloadRx  int64 // piece payload bytes received from the SUT
-	BytesPayloadTx  int64
-	RecvLog         []string
-	pendingServe    []Req
-	leechKick       chan struct{}
-	Received        map[Req][]byte // blocks received (leech mode)
-	numPieces       int
-	NoChecks        bool // disable local property checks (hostile scripts)
-	NoWireChecks    bool // with NoChecks: also the C11 checks (the peer's idea of the torrent is not the SUT's)
-	lastReqPiece    int64
-	MetaReqs        []uint32 // ut_metadata requests received from the SUT
-	PEXRecv         int      // PEX messages received from the SUT
-	ExtHandshakeRx  map[string]any
-	drainDone       bool
-	MsgCount        int           // messages received from the SUT
-	HandshakeAt     time.Duration // when the SUT's handshake was received (0 = never)
-	onMetaData      func(piece int, dict map[string]any, data []byte)
+	mu               sync.Mutex
+	have             Bits
+	SutHave          Bits
+	amChoking        bool // we choke the SUT
+	amInterested     bool
+	sutChoking       bool // the SUT chokes us
+	SutInterested    bool
+	afSent           map[uint32]bool // allowed-fast we granted
+	afRecv           map[uint32]bool // allowed-fast the SUT granted us
+	reqIn            []Req           // requests from the SUT we have not answered
+	actOn            bool
+	metaFetchStarted bool
+	servedBytes      map[uint32]int
+	servedBegins     map[uint32]map[uint32]bool
+	servedCorrupt    map[uint32]bool
+	sentMalformed    bool
+	hangup           bool
+	actPiece         uint32
+	reqOut           []Req       // our requests the SUT has not answered
+	reqCancelled     map[Req]int // requests we cancelled (an answer may still arrive: cancel is advisory)
+	reqChokeDropped  map[Req]int // requests dropped by a choke from the SUT (non-fast)
+	served           int
+	chokeMark        *simnet.Mark // set when we sent choke: consumed-by-SUT tracking
+	lastChokeMark    *simnet.Mark // the latest choke we ever sent (kept across unchokes)
+	reqAmbig         map[Req]bool // outstanding requests that may predate the SUT's handling of that choke
+	chokePending     bool         // a choke is queued for writing, its mark not placed yet
+	everUnchoked     bool
+	sutExt           map[string]any // SUT's extension handshake
+	sutMetaID        uint8
+	sutPexID         uint8
+	haveSentToUs     map[uint32]bool
+	closed           bool
+	closeErr         error
+	wq               chan wItem
+	initMark         *simnet.Mark
+	lastAdvAt        time.Duration
+	ClosedAt         time.Duration
+	serveQ           chan struct{}
+	done             chan struct{}
+	BytesPayloadRx   int64 // piece payload bytes received from the SUT
+	BytesPayloadTx   int64
+	RecvLog          []string
+	pendingServe     []Req
+	leechKick        chan struct{}
+	Received         map[Req][]byte // blocks received (leech mode)
+	numPieces        int
+	NoChecks         bool // disable local property checks (hostile scripts)
+	NoWireChecks     bool // with NoChecks: also the C11 checks (the peer's idea of the torrent is not the SUT's)
+	lastReqPiece     int64
+	MetaReqs         []uint32 // ut_metadata requests received from the SUT
+	PEXRecv          int      // PEX messages received from the SUT
+	ExtHandshakeRx   map[string]any
+	drainDone        bool
+	MsgCount         int           // messages received from the SUT
+	HandshakeAt      time.Duration // when the SUT's handshake was received (0 = never)
+	onMetaData       func(piece int, dict map[string]any, data []byte)
 }
 
 func NewPeer(name string, host *simrt.Host, t *gen.Torrent, b Behavior, seed uint64) *Peer {
@@ -1455,9 +1459,48 @@ func (p *Peer) onExtended(m Msg) {
 		} else {
 			p.violate("C11", "ext.handshake", "extension handshake without an m dictionary: %v", m.ExtDict)
 		}
+		fetch := p.B.FetchMeta && p.sutMetaID != 0 && p.T != nil && !p.metaFetchStarted
+		if fetch {
+			p.metaFetchStarted = true
+		}
 		p.mu.Unlock()
 		if len(m.ExtTrailer) != 0 {
 			p.violate("C11", "ext.handshake", "extension handshake with %d trailing bytes", len(m.ExtTrailer))
+		}
+		if fetch {
+			if sz, ok := m.ExtDict["metadata_size"].(int64); ok && sz > 0 {
+				if int(sz) != len(p.T.InfoBytes) {
+					p.violate("C13", "metadata.served_size", "the SUT announces metadata_size %d, its info dictionary has %d bytes", sz, len(p.T.InfoBytes))
+				}
+				n := (len(p.T.InfoBytes) + 16383) / 16384
+				got := map[int]bool{}
+				p.SetMetaDataCallback(func(piece int, dict map[string]any, data []byte) {
+					if data == nil {
+						simrt.Count("probe.meta.served_reject", 1)
+						return
+					}
+					lo := piece * 16384
+					if piece < 0 || lo >= len(p.T.InfoBytes) {
+						p.violate("C13", "metadata.served_piece", "the SUT served metadata piece %d of %d", piece, n)
+						return
+					}
+					want := p.T.InfoBytes[lo:min(lo+16384, len(p.T.InfoBytes))]
+					if !bytes.Equal(data, want) {
+						p.violate("C13", "metadata.served_bytes", "metadata piece %d served by the SUT (%d bytes) differs from its info dictionary (%d bytes expected)", piece, len(data), len(want))
+					}
+					if ts, _ := dict["total_size"].(int64); int(ts) != len(p.T.InfoBytes) {
+						p.violate("C13", "metadata.served_size", "metadata piece %d carries total_size %d, the info dictionary has %d bytes", piece, ts, len(p.T.InfoBytes))
+					}
+					got[piece] = true
+					simrt.Count("probe.meta.served_piece_checked", 1)
+				})
+				go func() {
+					for i := 0; i < n; i++ {
+						p.RequestMetadata(i)
+						time.Sleep(p.rng.Dur(0, 200*time.Millisecond))
+					}
+				}()
+			}
 		}
 		return
 	}
